@@ -116,20 +116,23 @@ Init == /\ start \in {1, 2, 3}
         /\ snaps = <<>> /\ nextId = 0
         /\ hist = <<>> /\ surv = <<>>
 
+Bound == Len(hist) < MaxDepth
+
 DoMut(c) ==
-  /\ Callable(st, c)
+  /\ Bound /\ Callable(st, c)
   /\ st' = Mut(st, c)
   /\ hist' = Append(hist, c) /\ surv' = Append(surv, c)
   /\ UNCHANGED <<snaps, nextId, start>>
 
 Snapshot ==
+  /\ Bound
   /\ snaps' = Append(snaps, <<nextId, st, Len(surv)>>)
   /\ nextId' = nextId + 1
   /\ hist' = Append(hist, <<"SNAP", nextId, 0, 0>>)
   /\ UNCHANGED <<st, surv, start>>
 
 Revert(i) ==
-  /\ i \in 1..Len(snaps)
+  /\ Bound /\ i \in 1..Len(snaps)
   /\ st' = snaps[i][2]
   /\ surv' = SubSeq(surv, 1, snaps[i][3])
   /\ snaps' = SubSeq(snaps, 1, i - 1)
@@ -137,24 +140,25 @@ Revert(i) ==
   /\ UNCHANGED <<nextId, start>>
 
 Finalise ==
+  /\ Bound
   /\ st' = Final(st)
   /\ snaps' = <<>>
   /\ hist' = Append(hist, <<"FIN", 0, 0, 0>>) /\ surv' = Append(surv, <<"FIN", 0, 0, 0>>)
   /\ UNCHANGED <<nextId, start>>
 
 Prepare(t) ==
+  /\ Bound
   /\ snaps = <<>>                      \* a transaction starts outside any snapshot
   /\ st' = Prep(st, t)
   /\ hist' = Append(hist, <<"PRE", t, 0, 0>>) /\ surv' = Append(surv, <<"PRE", t, 0, 0>>)
   /\ UNCHANGED <<snaps, nextId, start>>
 
 Next ==
-  /\ Len(hist) < MaxDepth
-  /\ \/ \E c \in Mutators : DoMut(c)
-     \/ Snapshot
-     \/ \E i \in 1..Len(snaps) : Revert(i)
-     \/ Finalise
-     \/ Prepare(2)
+  \/ \E c \in Mutators : DoMut(c)
+  \/ Snapshot
+  \/ \E i \in 1..Len(snaps) : Revert(i)
+  \/ Finalise
+  \/ Prepare(2)
 
 Spec == Init /\ [][Next]_vars
 
